@@ -13,13 +13,26 @@
   The element type is arbitrary: the statements hold "in the element type's own arithmetic".
 -/
 import EasyMl.Lemmas.ArithMatrix
+import EasyMl.Lemmas.ShapeIter
 
 namespace EasyMl.C03
-open EasyMl EasyMl.Arith EasyMl.Spec
+open EasyMl
+open EasyMl.Arith EasyMl.Spec
 
 set_option linter.unusedSectionVars false
 
 variable {ν : Type} [DecidableEq ν] {α : Type}
+
+/-! ### Iteration order -/
+
+/-- The index order the model uses for view operands (`viewIndices`, the row-major product of the
+    ranges) is the order the `ShapeIterator` odometer of the code yields (its code-shaped model
+    `shapeIndexes`, whose carry loop C09/C13 verify and tie to the code). -/
+theorem viewIndices_eq_shapeIterator (lens : List Nat) : viewIndices lens = shapeIndexes lens := by
+  rw [shapeIndexes_eq_allIndexes]
+  induction lens with
+  | nil => rfl
+  | cons l ls ih => simp only [viewIndices, allIndexes, ih]
 
 /-! ### Elementwise operations on tensors and tensor views -/
 
@@ -59,7 +72,7 @@ theorem elementwise_get (op : α → α → α) (l r : Operand ν α) (hl : l.WF
     · have hb' : inBounds (l.shape.map (·.2)) idx = false := by simpa using hb
       simp only [hb', Bool.false_eq_true, if_false]
       have := hl.asView.none_of_not idx (by rw [Operand.asView_shape]; exact hidx)
-        (by simpa [TView.lens, Operand.asView_shape] using hb')
+        (by simpa [Arith.TView.lens, Operand.asView_shape] using hb')
       rw [this]
 
 /-- Scalar broadcasts `tensor ⊕ s` (`⊕ ∈ {+,-,*,/}`): every element is combined with the scalar,
@@ -88,7 +101,7 @@ theorem scalarOp_get (op : α → α → α) (x : Operand ν α) (s : α) (hx : 
     · have hb' : inBounds (x.shape.map (·.2)) idx = false := by simpa using hb
       simp only [hb', Bool.false_eq_true, if_false]
       have := hx.asView.none_of_not idx (by rw [Operand.asView_shape]; exact hidx)
-        (by simpa [TView.lens, Operand.asView_shape] using hb')
+        (by simpa [Arith.TView.lens, Operand.asView_shape] using hb')
       rw [this]; rfl
 
 /-- `scalar_product` of two 1-dimensional operands with the same dimension:
@@ -118,7 +131,7 @@ theorem vectorProduct_eq_sum [Add α] [Mul α] (l r : Operand ν α) (hl : l.WF)
 
 /-- `M×N · N×L = M×L`, carrying the left operand's row name and the right operand's column name
     (holds whenever the product returns, for any operands). -/
-theorem matMul_shape [Add α] [Mul α] [Zero α] (l r : TView ν α) (t : Tensor ν α)
+theorem matMul_shape [Add α] [Mul α] [Zero α] (l r : Arith.TView ν α) (t : Tensor ν α)
     (h : matMul l r = .ok t) :
     ∃ l0 l1 r0 r1, l.shape = [l0, l1] ∧ r.shape = [r0, r1] ∧ l1.2 = r0.2 ∧
       t.shape = [(l0.1, l0.2), (r1.1, r1.2)] := by
@@ -149,7 +162,7 @@ theorem matMul_shape [Add α] [Mul α] [Zero α] (l r : TView ν α) (t : Tensor
 /-- `(A·B)[i,j] = A[i,0]·B[0,j] + A[i,1]·B[1,j] + … + A[i,N-1]·B[N-1,j]`, summed from the left
     starting at the first product (no zero is added), in the element type's own `+` and `*`
     (no algebraic law is used: any type with the two operations). -/
-theorem matMul_get_eq_sum [Add α] [Mul α] [Zero α] (l r : TView ν α) (hl : l.WF) (hr : r.WF)
+theorem matMul_get_eq_sum [Add α] [Mul α] [Zero α] (l r : Arith.TView ν α) (hl : l.WF) (hr : r.WF)
     {a b c d : ν} {m n k : Nat}
     (hls : l.shape = [(a, m), (b, n + 1)]) (hrs : r.shape = [(c, n + 1), (d, k)]) (had : a ≠ d)
     (A B : Nat → Nat → α) (hA : l.HasEntries m (n + 1) A) (hB : r.HasEntries (n + 1) k B) :
@@ -183,7 +196,7 @@ theorem matMul_get_eq_sum [Add α] [Mul α] [Zero α] (l r : TView ν α) (hl : 
 /-- Over a (commutative) semiring the model's product is Mathlib's `Matrix` product:
     `(A·B) i j = ∑ p, A i p * B p j` (`Matrix.mul_apply`).  Only `+` being a commutative monoid
     is needed to reorder the left fold into the `Finset` sum. -/
-theorem matMul_eq_Matrix_mul {R : Type} [Semiring R] (l r : TView ν R) (hl : l.WF) (hr : r.WF)
+theorem matMul_eq_Matrix_mul {R : Type} [Semiring R] (l r : Arith.TView ν R) (hl : l.WF) (hr : r.WF)
     {a b c d : ν} {m n k : Nat}
     (hls : l.shape = [(a, m), (b, n + 1)]) (hrs : r.shape = [(c, n + 1), (d, k)]) (had : a ≠ d)
     (A : _root_.Matrix (Fin m) (Fin (n + 1)) R) (B : _root_.Matrix (Fin (n + 1)) (Fin k) R)
@@ -226,7 +239,7 @@ theorem ops_reject_iff [Add α] [Mul α] [Zero α] :
     (∀ (l r : Operand ν α) (dl dr : ν × Nat), l.WF → r.WF → l.shape = [dl] → r.shape = [dr] →
       ((∃ k, vectorProduct l r = .panic k) ↔ l.shape ≠ r.shape) ∧
       (∀ k, vectorProduct l r = .panic k → k = .explicit)) ∧
-    (∀ (l r : TView ν α) (l0 l1 r0 r1 : ν × Nat), l.WF → r.WF → l.shape = [l0, l1] →
+    (∀ (l r : Arith.TView ν α) (l0 l1 r0 r1 : ν × Nat), l.WF → r.WF → l.shape = [l0, l1] →
       r.shape = [r0, r1] →
       ((∃ k, matMul l r = .panic k) ↔ (l1.2 ≠ r0.2 ∨ l0.1 = r1.1)) ∧
       (∀ k, matMul l r = .panic k → k = .explicit)) := by
@@ -249,12 +262,12 @@ theorem ops_reject_iff [Add α] [Mul α] [Zero α] :
           ∃ c : Nat → α, ∀ p, p < n' + 1 → o.asView.get [p] = some (c p) := by
         intro o ho hos
         have h0 := ho.asView.some_of_inBounds [0]
-          (by simp [TView.lens, Operand.asView_shape, hos, inBounds])
+          (by simp [Arith.TView.lens, Operand.asView_shape, hos, inBounds])
         obtain ⟨x, _⟩ := Option.isSome_iff_exists.1 h0
         refine ⟨fun p => (o.asView.get [p]).getD x, ?_⟩
         intro p hp
         have := ho.asView.some_of_inBounds [p]
-          (by simp [TView.lens, Operand.asView_shape, hos, inBounds, hp])
+          (by simp [Arith.TView.lens, Operand.asView_shape, hos, inBounds, hp])
         obtain ⟨y, hy⟩ := Option.isSome_iff_exists.1 this
         simp [hy]
       obtain ⟨a, ha⟩ := hex l hl hls
@@ -400,7 +413,7 @@ theorem mMatMul_get_eq_sum [Add α] [Mul α] [Zero α] (l r : MView α) (hl : l.
 /-- Same data through the tensor API and through the matrix API: elementwise operations and the
     matrix product produce the same row-major table, with the same lengths / size. -/
 theorem tensor_matrix_agree [Add α] [Mul α] [Zero α]
-    (t1 t2 : TView ν α) (m1 m2 : MView α) (ht1 : t1.WF) (ht2 : t2.WF) (hm1 : m1.WF) (hm2 : m2.WF)
+    (t1 t2 : Arith.TView ν α) (m1 m2 : MView α) (ht1 : t1.WF) (ht2 : t2.WF) (hm1 : m1.WF) (hm2 : m2.WF)
     {a1 b1 a2 b2 : ν} (h1 : SameTable t1 m1 a1 b1) (h2 : SameTable t2 m2 a2 b2) :
     (∀ op : α → α → α, t1.shape = t2.shape →
       ∃ t M, elementwise op (.view t1) (.view t2) = .ok t ∧
@@ -469,11 +482,11 @@ theorem tensor_matrix_agree [Add α] [Mul α] [Zero α]
     the hypotheses of the theorems above are satisfiable by non-trivial objects. -/
 example :
     ∃ t : Tensor String Int, Tensor.tryFrom [("r", 2), ("c", 3)] [1, 2, 3, 4, 5, 6] = some t ∧
-      (Operand.tensor t).WF ∧ (TView.ofTensor t).swap2.WF ∧
-      (TView.ofTensor t).swap2.shape = [("c", 3), ("r", 2)] ∧
-      (TView.ofTensor t).swap2.elems = [1, 4, 2, 5, 3, 6] ∧
-      (∃ v p, (TView.ofTensor t).swap2.rename ["x", "y"] = some v ∧
-        matMul (TView.ofTensor t) v = .ok p ∧ p.data = [14, 32, 32, 77]) := by
+      (Operand.tensor t).WF ∧ (Arith.TView.ofTensor t).swap2.WF ∧
+      (Arith.TView.ofTensor t).swap2.shape = [("c", 3), ("r", 2)] ∧
+      (Arith.TView.ofTensor t).swap2.elems = [1, 4, 2, 5, 3, 6] ∧
+      (∃ v p, (Arith.TView.ofTensor t).swap2.rename ["x", "y"] = some v ∧
+        matMul (Arith.TView.ofTensor t) v = .ok p ∧ p.data = [14, 32, 32, 77]) := by
   refine ⟨_, rfl, ?_, ?_, ?_, by decide, ⟨_, _, rfl, rfl, rfl⟩⟩
   · exact (tryFrom_valid (shape := [("r", 2), ("c", 3)]) (data := [1, 2, 3, 4, 5, 6]) rfl).1
   · exact ((ofTensor_WF (tryFrom_valid (shape := [("r", 2), ("c", 3)])
@@ -487,7 +500,7 @@ example :
     ∃ m : Matrix Int, Matrix.fromFlatRowMajor 2 2 [1, 2, 3, 4] = some m ∧ (MOperand.matrix m).WF ∧
       (MView.ofMatrix m).HasEntries (fun i j => (1 + 2 * i + j : Int)) ∧
       ∃ t : Tensor String Int, Tensor.tryFrom [("r", 2), ("c", 2)] [1, 2, 3, 4] = some t ∧
-        SameTable (TView.ofTensor t) (MView.ofMatrix m) "r" "c" := by
+        SameTable (Arith.TView.ofTensor t) (MView.ofMatrix m) "r" "c" := by
   refine ⟨_, rfl, (by decide : Matrix.Inv _), ?_, _, rfl, ⟨rfl, ?_⟩⟩
   · intro i j hi hj
     have hi' : i < 2 := hi
@@ -499,7 +512,7 @@ example :
     | 1, 1, _, _ => rfl
   · intro i j
     have hv := (tryFrom_valid (shape := [("r", 2), ("c", 2)]) (data := ([1, 2, 3, 4] : List Int)) rfl).1
-    rw [show (TView.ofTensor _).get [i, j] = Tensor.get _ [i, j] from rfl, hv.get_eq [i, j] rfl]
+    rw [show (Arith.TView.ofTensor _).get [i, j] = Tensor.get _ [i, j] from rfl, hv.get_eq [i, j] rfl]
     show _ = Matrix.tryGet _ i j
     rw [Matrix.tryGet_eq]
     simp only [List.map_cons, List.map_nil, inBounds, ravel, Bool.and_true, Bool.and_eq_true,
